@@ -332,6 +332,22 @@ def _opt_ok_or(ex, st, c, args, dty):
     return Adt("Result", "Err", (args[1],))
 
 
+@reg("Option::and_then")
+def _opt_and_then(ex, st, c, args, dty):
+    v = args[0]
+    if v.variant == "None":
+        return v
+    return Forked(call_closure(ex, st, args[1], [v.fields[0]]))
+
+
+@reg("Option::map_or")
+def _opt_map_or(ex, st, c, args, dty):
+    v = args[0]
+    if v.variant == "None":
+        return args[1]
+    return Forked(call_closure(ex, st, args[2], [v.fields[0]]))
+
+
 @reg("Option::map")
 def _opt_map(ex, st, c, args, dty):
     v = args[0]
@@ -831,7 +847,7 @@ def _slice_get(ex, st, c, args, dty):
         cases = []
         for k in range(len(items.elems)):
             kk = ex.mk_int(k, 64, False)
-            cases.append((idx.e == kk.e, Adt("Option", "Some", (Ref(rr.cell, rr.proj + (("idx", kk),)),))))
+            cases.append((ex.binop("Eq", idx, kk).e, Adt("Option", "Some", (Ref(rr.cell, rr.proj + (("idx", kk),)),))))
         cases.append((z3.Not(inb), Adt("Option", "None", ())))
         return cases
     return [(inb, Adt("Option", "Some", (Ref(rr.cell, rr.proj + (("idx", idx),)),))), (z3.Not(inb), Adt("Option", "None", ()))]
@@ -1356,6 +1372,8 @@ def struct_eq(ex, st, a, b):
         return a.e == b.e
     if isinstance(a, VecV) and isinstance(b, VecV):
         return struct_eq(ex, st, a.items, b.items)
+    if isinstance(a, SymSeq) and isinstance(b, SymSeq):
+        return z3.And(a.base == b.base, a.length == b.length)
     if isinstance(a, Arr) and isinstance(b, Arr):
         if len(a.elems) != len(b.elems):
             return z3.BoolVal(False)
